@@ -343,6 +343,11 @@ def parse_range_string(chars):
         return (vals[0], None, False)
     if kinds == ['sep', 'num'] and vals[0] == '..=':
         return (None, vals[1], False)
+    # Rust's half-open forms exclude the upper end point
+    if kinds == ['num', 'sep', 'num'] and vals[1] == '..':
+        return (vals[0], vals[2] - 1, False)
+    if kinds == ['sep', 'num'] and vals[0] == '..':
+        return (None, vals[1] - 1, False)
     return None
 
 
